@@ -4,16 +4,19 @@
 From Coq Require Import List NArith Bool.
 Import ListNotations.
 Require Import Celma.Common.Res Celma.FixedStr.FsBase Celma.FixedStr.FsModel
-  Celma.FixedStr.FsSafe Celma.FixedStr.FsSafeObs Celma.FixedStr.FsSafeAll Celma.FixedStr.FsPinned.
+  Celma.FixedStr.FsSafe Celma.FixedStr.FsSafeObs Celma.FixedStr.FsSafeAll Celma.FixedStr.FsPinned
+  Celma.FixedStr.FsIter.
 Local Open Scope N_scope.
 
 (** One step.  For every capacity 1 <= L < 2^64-1, every pair of well-formed
     objects (L+1 bytes, length <= L, terminator at the length), every one of the
-    87 modelled entry points (all mutators: constructors, assign, the insert /
+    89 modelled entry points (all mutators: constructors, assign, the insert /
     erase / push_back / pop_back / append / sprintf / replace families, swap,
     clear; all observers: compare, starts_with / ends_with / contains, substr,
     copy, at / front / back / length / empty / str, == and !=, iteration in both
-    directions, the 30 overloads of the find family) and all argument values
+    directions, single steps ++ / -- / += / -= of the iterator and reverse
+    iterator classes followed by operator*, the 30 overloads of the find family)
+    and all argument values
     that fit into size_t - positions and counts up to 2^64-1 included -: the
     operation returns normally (possibly by the documented out_of_range of
     at()), no access leaves the object, the source arguments or the
@@ -53,6 +56,17 @@ Theorem C10_length_fits_length_type :
   forall L v, L + 1 < M64 -> v <= L -> trunc L v = v.
 Proof. exact trunc_id. Qed.
 Print Assumptions C10_length_fits_length_type.
+
+(** Index stepping of the four iterator classes: after ++, --, += v, -= v (any v)
+    the index is a character position or the end value, so operator* reads
+    inside the string or throws range_error. *)
+Theorem C10_iterator_step_valid :
+  forall L s rev pos k v,
+    CapOk L -> Inv L s -> v < M64 ->
+    exists i c, it_step s rev pos k v = Ok (i, c) /\ valid_it s i /\
+                (i = NPOS -> c = None) /\ (i <> NPOS -> c = Some (nthN i (buf s))).
+Proof. intros L s rev pos k v H. exact (it_step_index_valid L H s rev pos k v). Qed.
+Print Assumptions C10_iterator_step_valid.
 
 (* ------------------------------------------------------------------ *)
 (** Witnesses of the defects of the pinned tree (functions of FsPinned.v);
@@ -117,6 +131,13 @@ Theorem C10_terminate_pinned_refuted :
   substr_pinned (fs10 [97;98;99;100]) 2 18446744073709551614 = Err ELogic.
 Proof. vm_compute. repeat split. Qed.
 Print Assumptions C10_terminate_pinned_refuted.
+
+(** --end() of the pinned FixedStringIterator (operator-- = [it_dec] without a test for
+    the end value) gives index 2^64-2; operator* then reads far outside the object *)
+Theorem C10_iterator_pinned_refuted :
+  it_dec NPOS = 18446744073709551614 /\ it_deref (fs10 [97;98;99]) (it_dec NPOS) = Fault OOBRead.
+Proof. vm_compute. split; reflexivity. Qed.
+Print Assumptions C10_iterator_pinned_refuted.
 
 (** Non-vacuity: the hypotheses are satisfiable and the theorems apply to a
     history with huge arguments on a full string. *)
